@@ -22,6 +22,15 @@ package client
 //@ pred NWf(n *gpb.Notification) := n != nil && allocated(n.Update) && allocated(n.Delete)
 //@   && (forall i int :: 0 <= i && i < len(n.Update) ==> n.Update[i] != nil)
 
+// New: the blocking dial is made under a context derived from the caller's (so that cancelling the caller's context -
+// which is how ReconnectClient.Close ends a connection attempt - ends the dial) and bounded by the destination's timeout.
+//@ func New
+//@   props C18 C12
+//@   modifies *
+//@   assert at call google.golang.org/grpc.DialContext#0: [the-dial-ends-with-the-callers-context-or-the-timeout C18] ctxparent(arg0) == ctx && ctxtimeout(arg0) == d.Timeout
+//@ func New$1
+//@   props C18 C12
+
 // One notification out of one update / delete: the path is the prefix followed by the
 // index form of the update's path, in an array of its own; a delete when there is no
 // update, otherwise an update carrying the decoded scalar and the duplicate count.
